@@ -135,6 +135,12 @@ CaseResult one_round(Tape &t, int round)
   }
 
   // ---- arrange ------------------------------------------------------------
+  // a daemon-style parent: some of its own 0-2 closed, so that whatever the
+  // library creates first lands there
+  int closed_mask = t.chance(1, 3) ? 1 + (int) t.pick(7) : 0;
+  if (round > 0) closed_mask = 0;  // (later rounds inherit what round 0 closed)
+  for (int s = 0; s < 3; s++)
+    if (closed_mask & (1 << s)) close(s);
   sc::Built b;
   if (!sc::build(plan, root, b)) {
     res.inconclusive("build: " + b.err);
@@ -203,9 +209,11 @@ CaseResult one_round(Tape &t, int round)
   if (placed_top) res.cls("highest-permitted-descriptor-open");
   if (placed >= 100) res.cls("hundreds-of-descriptors");
   if (limit <= 32) res.cls("tiny-limit");
+  if (closed_mask) res.cls("parent-0-2-partly-closed");
   if (limit >= 4096) res.cls("large-limit");
   std::vector<int> head(placed_fds.begin(), placed_fds.begin() + (long) std::min<size_t>(placed_fds.size(), 12));
   res.describe = J().kv("limit", limit)
+                     .kv("closed_parent_fds_mask", closed_mask)
                      .kv("extra_descriptors", placed)
                      .kv("inheritable", inheritable)
                      .raw("extra_numbers_head", jnums(head))
